@@ -7,16 +7,19 @@ import tempfile
 from harness import core
 
 _tmp = None
+_tmp_pid = None
 os.environ.setdefault("VERIF_CHECK_PID", str(os.getpid()))     # set in the check's main process, inherited by its workers
 
 
 def workdir():
     """A private scratch directory per worker process, under /verif/build."""
-    global _tmp
-    if _tmp is None or not os.path.isdir(_tmp):
+    global _tmp, _tmp_pid
+    # (a forked worker inherits the parent's globals: the directory is private to the process that made it)
+    if _tmp is None or _tmp_pid != os.getpid() or not os.path.isdir(_tmp):
         base = _base()
         os.makedirs(base, exist_ok=True)
         _tmp = tempfile.mkdtemp(prefix="w%d_" % os.getpid(), dir=base)
+        _tmp_pid = os.getpid()
     return _tmp
 
 
